@@ -771,6 +771,17 @@ pub fn leg_http(thorough: bool, seed: u64) -> Value {
                         ctx.v(&["C14", "C02"], format!("first add-version of a new client answered {}", d.status), &r, &tr);
                         continue;
                     }
+                    if parent != NIL {
+                        // a chain started from a non-nil base: the nil id has no child and AddVersion(nil) would be a conflict,
+                        // so GetChildVersion(nil) is GONE (410), not not-found (C08, C14)
+                        let g0 = ReqSpec { method: "GET", uri: uri_gcv(NIL), client_id: Some(cl.to_string().into_bytes()), content_type: None, chunks: vec![] };
+                        if let Ok(gd) = call(&app, &g0).await {
+                            ctx.common(&gd, &g0, &tr, "nil-of-non-nil-base");
+                            if gd.status != 410 {
+                                ctx.v(&["C14", "C08"], format!("GetChildVersion(nil) for a client whose chain started from the non-nil base {parent} answered {} (expected 410: AddVersion(nil) would be rejected)", gd.status), &g0, &tr);
+                            }
+                        }
+                    }
                     let g = ReqSpec { method: "GET", uri: uri_gcv(parent), client_id: Some(cl.to_string().into_bytes()), content_type: None, chunks: vec![] };
                     if let Ok(gd) = call(&app, &g).await {
                         ctx.common(&gd, &g, &tr, "new-client-readback");
